@@ -75,8 +75,9 @@ type vh02Attacher struct{}
 func (vh02Attacher) Attach() (File, error) { return nil, linux.ENOSYS }
 
 type vh02Reply struct {
-	Typ int `json:"typ"`
-	Tag int `json:"tag"`
+	Typ   int `json:"typ"`
+	Tag   int `json:"tag"`
+	Errno int `json:"errno"` // of an Rlerror
 }
 
 type vh02Session struct {
@@ -138,14 +139,18 @@ func vh02Sess(o *vhOut, r *rand.Rand, path string, msize uint32, stream []byte) 
 		a.CloseWrite()
 	}()
 	for {
-		typ, tg, _, err := vhReadFrame(a, 10*time.Second)
+		typ, tg, rbody, err := vhReadFrame(a, 10*time.Second)
 		if err != nil {
 			if ne, ok := err.(net.Error); ok && ne.Timeout() {
 				res.Hang = true
 			}
 			break
 		}
-		res.Replies = append(res.Replies, vh02Reply{Typ: int(typ), Tag: int(tg)})
+		rep := vh02Reply{Typ: int(typ), Tag: int(tg)}
+		if typ == byte(msgRlerror) && len(rbody) >= 4 {
+			rep.Errno = int(binary.LittleEndian.Uint32(rbody))
+		}
+		res.Replies = append(res.Replies, rep)
 	}
 	a.Close()
 	wg.Wait()
@@ -264,6 +269,9 @@ func TestVerifC02(t *testing.T) {
 		{maximumLength, maximumLength, maximumLength}, {maximumLength, maximumLength, 1000}, {1<<32 - 1, maximumLength, maximumLength},
 		{1<<32 - 1, maximumLength + 1, 64}, {1<<32 - 1, 1<<32 - 1, 64}, {1 << 20, 1 << 20, 1 << 20}, {1 << 20, 1<<20 + 1, 64},
 		{maximumLength, maximumLength - 1, maximumLength + 10},
+		// a client created WithMessageSize(> 4 MiB): frames between 4 MiB and msize are refused after the header
+		{1<<32 - 1, maximumLength + 1, maximumLength + 20}, {8 << 20, maximumLength + 1, maximumLength + 20}, {8 << 20, 8 << 20, 64},
+		{8 << 20, 5 << 20, 5<<20 + 3},
 	} {
 		for _, typ := range []byte{byte(msgTwrite), byte(msgTclunk), 3} {
 			vh02Big(o, c[0], c[1], typ, int(c[2]))
